@@ -229,7 +229,7 @@ def bounded_checks(tier, seed):
         raise RuntimeError("bounded C05 sweep crashed: " + r.stderr[-1500:])
     d = json.loads(r.stdout.strip().splitlines()[-1])
     return [{"check": "packages_vs_cpython_import", "tool": "generated acyclic packages imported by CPython; names visible per module, __all__, and the defining object of every name vs. the loaded+resolved Griffe tree",
-             "bound": f"3 modules; 400 exhaustive-style graphs + {n_random} random graphs of 1-3 statements per module over definitions, __all__ forms (incl. assembled from another module's __all__, also with augmented assignments), absolute/relative/aliased/wildcard imports; directed override chains and same-line statements",
+             "bound": f"3 modules; 400 exhaustive-style graphs + {n_random} random graphs of 1-3 statements per module over definitions, __all__ forms (incl. assembled from another module's __all__, also with augmented assignments), absolute/relative/aliased/wildcard imports; directed override chains and same-line statements; 5 directed sub-package layouts (the same module text reached at different relative levels, several wildcard imports per module, re-exported further)",
              "cases": d["cases"], "not_importable_for_cpython": d["not_importable"], "failing": len(d["bad"]), "wall_s": round(time.time() - t0, 1), "class_match": True, "violations": d["bad"]}]
 
 
